@@ -414,10 +414,19 @@ def _kwstr(kw):
     return ', '.join('%s=%r' % kv for kv in sorted(kw.items()))
 
 
+CALL_BUDGET = 12_000_000   # line events; the costliest legal call of the sampled domain (version 40, automatic mask) needs ~5.3e6
+
+
 def _call(segno, fn, content, kw):
-    """Returns ('ok', symbol) | ('ValueError', msg) | ('LookupError', msg) | ('other', 'Type: msg')."""
+    """Returns ('ok', symbol) | ('ValueError', msg) | ('LookupError', msg) | ('other', 'Type: msg') | ('loop', msg).
+    Every call runs under a step budget on the line-event clock (bounded liveness)."""
     try:
-        return 'ok', getattr(segno, fn)(content, **kw)
+        with sched.StepGuard(CALL_BUDGET) as g:
+            q = getattr(segno, fn)(content, **kw)
+        _call.steps += g.steps
+        return 'ok', q
+    except sched.StepBudgetExceeded as ex:
+        return 'loop', str(ex)
     except ValueError as ex:
         return 'ValueError', str(ex)
     except (IndexError, KeyError) as ex:   # subclasses of LookupError, but never an "unknown codec"
@@ -426,6 +435,9 @@ def _call(segno, fn, content, kw):
         return 'LookupError', str(ex)
     except Exception as ex:  # noqa
         return 'other', '%s: %s' % (type(ex).__name__, ex)
+
+
+_call.steps = 0
 
 
 def _mat(q):
@@ -443,7 +455,9 @@ def _exec_calls(segno, sc, res, viols, counters):
         st, val = _call(segno, c['fn'], content, kw)
         outcomes[st] = outcomes.get(st, 0) + 1
         log.append([ci, st])
-        if st == 'other':
+        if st == 'loop':
+            viols.append(_viol('c14.liveness', '%s(%r, %s) did not return or raise within %d steps' % (c['fn'], content if len(repr(content)) < 50 else '<%d>' % len(content), _kwstr(kw), CALL_BUDGET), call=ci))
+        elif st == 'other':
             viols.append(_viol('c14.exc', '%s(%r, %s) raised %s' % (c['fn'], content if len(repr(content)) < 50 else '<%d>' % len(content), _kwstr(kw), val[:120]),
                                call=ci))
         elif st == 'LookupError':
@@ -504,8 +518,11 @@ def _exec_calls(segno, sc, res, viols, counters):
         out = io.BytesIO() if kind in opts.BINARY_KINDS else io.StringIO()
         counters['serialiser_refusals_checked'] = counters.get('serialiser_refusals_checked', 0) + 1
         try:
-            q.save(out, kind=kind.upper() if upper else kind, **bad)
+            with sched.StepGuard(CALL_BUDGET):
+                q.save(out, kind=kind.upper() if upper else kind, **bad)
             st = 'returned'
+        except sched.StepBudgetExceeded:
+            st = 'did not terminate within the step budget'
         except ValueError:
             st = 'ValueError'
         except Exception as ex:  # noqa
@@ -535,6 +552,7 @@ def _exec_calls(segno, sc, res, viols, counters):
             st = type(ex).__name__
         if st != 'ValueError' and bad_kind != 'svgz':
             viols.append(_viol('c14.ser', 'save(kind=%r) was not refused with ValueError: %s' % (bad_kind, st), ser=['kind', bad_kind]))
+    counters['sim_steps'] = _call.steps
     res['digest'] = core.digest(log)
     res['sample'] = {'mode': 'calls', 'first_calls': [[c['fn'], c['content'] if len(str(c['content'])) < 60 else '<long>', c['kw']] for c in sc['calls'][:3]],
                      'outcomes': outcomes}
